@@ -12,6 +12,7 @@ from fractions import Fraction as F
 
 import analysis
 import common
+import reuse
 from analysis import CELLS, FIELDS, make_case, real_analyze, run_cases, same
 from common import Check
 from props.c06 import aggs_of
@@ -160,6 +161,7 @@ def main():
     run_cases(chk, cases, family=1, with_gen=have_model)
     swap_exact(chk, cases)
     scale_float(chk, 60 if chk.tier == "quick" else 1200)
+    reuse.analyze_after_mutation(chk, 4 if chk.tier == "quick" else 24, "changing units (and other in-place changes of the data)")
     analysis.float_far_tail(chk, 12 if chk.tier == "quick" else 120, clauses=("swap",))
     chk.cov["rule"] = ("5 metric kinds x 12 option cells; exact swap (rational data) and float scale/swap end-to-end "
                        "through Experiment.analyze on PyArrow tables, c = 2^-20..2^20 and 10^-6..10^6")
